@@ -1197,6 +1197,15 @@ func (interp *Interpreter) cfg(root *node, sc *scope, importPath, pkgName string
 				err = n.cfgErrorf("invalid operation: cannot send to non-channel %s", n.child[0].typ.id())
 				break
 			}
+			if isRecvChan(n.child[0].typ) {
+				err = n.cfgErrorf("invalid operation: cannot send to receive-only channel %s", n.child[0].typ.id())
+				break
+			}
+			if et := chanElem(n.child[0].typ); et != nil {
+				if err = check.assignment(n.child[1], et, "send"); err != nil {
+					break
+				}
+			}
 			fallthrough
 
 		case declStmt, exprStmt:
